@@ -236,6 +236,13 @@ func TestC02_Tampering(t *testing.T) {
 			if cerr := compareModel(res, want, nil, nil); cerr != nil {
 				t.Fatalf("C02 recover with substituted delta: %v\n%s", cerr, desc)
 			}
+			// the degraded state belongs to the holder of the next recovery key: their correctly signed deactivate applies to it
+			follow := newDeactivate(c.Build.Alg, suffix, c.Build.NextRecov, 0, 0)
+			m2 := anchorMeta{Time: m.Time + 1, Number: m.Number + 1, Canonical: "c-follow"}
+			fres, ferr := stack.Applier.Apply(anchoredBytes("deactivate", follow.bytes(), suffix, m2), res)
+			if ferr != nil || fres == nil || !fres.Deactivated {
+				t.Fatalf("C02 after a recover with substituted delta the holder's deactivate is refused: %v\n%s", ferr, desc)
+			}
 		default:
 			if aerr == nil || res != nil {
 				t.Fatalf("C02 tampered operation changed the state (err=%v)\n%s\n state=%s", aerr, desc, docCanon(resDoc(res)))
